@@ -146,8 +146,8 @@ func literalElems(data ssa.Value) ([]ssa.Value, bool) {
 	return elems, true
 }
 
-func (c *Ctx) entryFor(call *ssa.Call, datum ssa.Value, order string, isRead bool) codecEntry {
-	e := codecEntry{call: call, order: order, width: -1, val: datum, onSrc: call.Call.Args[0]}
+func (c *Ctx) entryFor(call *ssa.Call, datum ssa.Value, order string, isRead bool, stream ssa.Value) codecEntry {
+	e := codecEntry{call: call, order: order, width: -1, val: datum, onSrc: stream}
 	v := datum
 	if mi, ok := v.(*ssa.MakeInterface); ok {
 		v = mi.X
@@ -259,6 +259,12 @@ func (c *Ctx) codecTable(fn *ssa.Function, isRead bool) []codecEntry {
 				calls = append(calls, call)
 				return
 			}
+			if callee := ir.Callee(call); callee != nil && c.P.InLib(callee) && callee != fn {
+				if w := c.codecWrapper(callee); w != nil && w.isRead == isRead {
+					calls = append(calls, call)
+					return
+				}
+			}
 			if isRead && c.byteReaderCall(call) != nil {
 				calls = append(calls, call)
 			}
@@ -267,6 +273,27 @@ func (c *Ctx) codecTable(fn *ssa.Function, isRead bool) []codecEntry {
 	sort.SliceStable(calls, func(i, j int) bool { return ir.InstrPos(calls[i]) < ir.InstrPos(calls[j]) })
 	var out []codecEntry
 	for _, call := range calls {
+		if callee := ir.Callee(call); callee != nil && ir.CallID(call) != want {
+			if w := c.codecWrapper(callee); w != nil && w.isRead == isRead {
+				args := call.Call.Args
+				stream := args[w.streamIdx]
+				if w.variadic {
+					if elems, ok := variadicElems(args[w.dataIdx]); ok {
+						// in index order
+						ordered := orderedVariadic(args[w.dataIdx])
+						if ordered != nil {
+							elems = ordered
+						}
+						for _, el := range elems {
+							out = append(out, c.entryFor(call, el, w.order, isRead, stream))
+						}
+					}
+				} else {
+					out = append(out, c.entryFor(call, args[w.dataIdx], w.order, isRead, stream))
+				}
+				continue
+			}
+		}
 		if ir.CallID(call) != want {
 			if n := c.byteReaderCall(call); isRead && n != nil {
 				a := affineOf(n, 0)
@@ -292,11 +319,11 @@ func (c *Ctx) codecTable(fn *ssa.Function, isRead bool) []codecEntry {
 		data := call.Call.Args[2]
 		if elems, ok := literalElems(data); ok {
 			for _, el := range elems {
-				out = append(out, c.entryFor(call, el, order, isRead))
+				out = append(out, c.entryFor(call, el, order, isRead, call.Call.Args[0]))
 			}
 			continue
 		}
-		out = append(out, c.entryFor(call, data, order, isRead))
+		out = append(out, c.entryFor(call, data, order, isRead, call.Call.Args[0]))
 	}
 	// alias entries: reads from a reader constructed over already read bytes
 	if isRead {
@@ -325,6 +352,9 @@ func firstStreamArg(call *ssa.Call) ssa.Value {
 // isCodecFunc: a repo function that (transitively) performs binary.Read/Write
 // and takes a stream parameter.
 func (c *Ctx) isCodecFunc(fn *ssa.Function, isRead bool) bool {
+	if c.codecWrapper(fn) != nil {
+		return false
+	}
 	hasStream := false
 	for _, p := range fn.Params {
 		id := ir.NamedTypeID(p.Type())
@@ -484,7 +514,7 @@ func sameLeaves(r, w []leaf, skip map[string]bool) (bool, string) {
 		}
 	}
 	for _, l := range w {
-		if !skip[l.id] {
+		if !skip[l.id] && !skip[leafKey(l.id)] {
 			ww = append(ww, l)
 		}
 	}
@@ -506,7 +536,7 @@ func sameLeaves(r, w []leaf, skip map[string]bool) (bool, string) {
 			}
 			continue
 		}
-		if a.id != b.id || a.width != b.width || a.order != b.order {
+		if leafKey(a.id) != leafKey(b.id) || a.width != b.width || a.order != b.order {
 			return false, fmt.Sprintf("position %d: reader consumes %s, writer emits %s", k+1, a, b)
 		}
 	}
@@ -532,4 +562,174 @@ func (c *Ctx) byteReaderCall(call *ssa.Call) ssa.Value {
 		return nil
 	}
 	return call.Call.Args[1]
+}
+
+// ---------------------------------------------------------------- wrappers
+
+type wrapperInfo struct {
+	isRead    bool
+	streamIdx int
+	dataIdx   int
+	order     string
+	variadic  bool
+}
+
+// codecWrapper recognises a helper that forwards (stream, datum) to exactly one
+// binary.Read / binary.Write with a constant byte order — e.g.
+// mustWriteLE(b, v) or a variadic mustReadFields(f, what, fields...). Calls to
+// such helpers are table entries of their callers.
+func (c *Ctx) codecWrapper(fn *ssa.Function) *wrapperInfo {
+	if c.wrapperCache == nil {
+		c.wrapperCache = map[*ssa.Function]*wrapperInfo{}
+	}
+	if w, ok := c.wrapperCache[fn]; ok {
+		return w
+	}
+	c.wrapperCache[fn] = nil
+	if fn == nil || fn.Blocks == nil || len(fn.AnonFuncs) > 0 {
+		return nil
+	}
+	var calls []*ssa.Call
+	other := false
+	instrsOf(fn, func(i ssa.Instruction) {
+		call, ok := i.(*ssa.Call)
+		if !ok {
+			return
+		}
+		switch id := ir.CallID(call); id {
+		case "encoding/binary.Read", "encoding/binary.Write":
+			calls = append(calls, call)
+		default:
+			if callee := ir.Callee(call); callee != nil && c.P.InLib(callee) {
+				other = true // wrappers do nothing else in the library
+			}
+		}
+	})
+	if len(calls) != 1 || other {
+		return nil
+	}
+	call := calls[0]
+	w := &wrapperInfo{isRead: ir.CallID(call) == "encoding/binary.Read", streamIdx: -1, dataIdx: -1, order: byteOrderOf(call.Call.Args[1])}
+	if w.order == "?" {
+		return nil
+	}
+	stream := ir.StripIface(call.Call.Args[0])
+	for k, p := range fn.Params {
+		if stream == ssa.Value(p) {
+			w.streamIdx = k
+		}
+	}
+	data := call.Call.Args[2]
+	for k, p := range fn.Params {
+		if ir.StripIface(data) == ssa.Value(p) {
+			w.dataIdx = k
+		}
+		// element of a variadic/slice parameter
+		if ld, ok := data.(*ssa.UnOp); ok {
+			if ia, ok := ld.X.(*ssa.IndexAddr); ok && ia.X == ssa.Value(p) {
+				w.dataIdx, w.variadic = k, true
+			}
+		}
+	}
+	if w.streamIdx < 0 || w.dataIdx < 0 {
+		return nil
+	}
+	// the datum parameter must be an interface (any) or a slice of them
+	c.wrapperCache[fn] = w
+	return w
+}
+
+// orderedVariadic returns the elements of a variadic literal in index order.
+func orderedVariadic(v ssa.Value) []ssa.Value {
+	sl, ok := v.(*ssa.Slice)
+	if !ok {
+		return nil
+	}
+	a, ok := sl.X.(*ssa.Alloc)
+	if !ok {
+		return nil
+	}
+	n, ok := byteLenAny(a)
+	if !ok {
+		return nil
+	}
+	out := make([]ssa.Value, n)
+	for _, r := range *a.Referrers() {
+		if ia, ok := r.(*ssa.IndexAddr); ok {
+			idx, isK := ir.ConstInt(ia.Index)
+			if !isK || idx < 0 || idx >= n {
+				return nil
+			}
+			for _, rr := range *ia.Referrers() {
+				if st, ok := rr.(*ssa.Store); ok && st.Addr == ia {
+					out[idx] = st.Val
+				}
+			}
+		}
+	}
+	for _, o := range out {
+		if o == nil {
+			return nil
+		}
+	}
+	return out
+}
+
+// codecOpaque: the function (or a library callee on its stream) moves bytes by
+// idioms the table extraction does not model (manual byte packing with
+// ByteOrder.PutUintNN/UintNN/AppendUintNN, io.ReadFull into a scratch buffer,
+// raw Write of a hand-built buffer). Table rules then give no verdict.
+func (c *Ctx) codecOpaque(fn *ssa.Function, depth int) string {
+	if fn == nil || depth > 4 {
+		return ""
+	}
+	why := ""
+	for _, f := range withAnon(fn) {
+		instrsOf(f, func(i ssa.Instruction) {
+			call, ok := i.(*ssa.Call)
+			if !ok || why != "" {
+				return
+			}
+			id := ir.CallID(call)
+			switch {
+			case strings.HasPrefix(id, "encoding/binary.") && (strings.Contains(id, ".PutUint") || strings.Contains(id, ".AppendUint") || strings.Contains(id, "Endian.Uint") || strings.Contains(id, "ByteOrder.Uint")):
+				why = "manual byte packing (" + strings.TrimPrefix(id, "encoding/binary.") + ") in " + name(f)
+			case id == "io.ReadFull" || id == "io.ReadAtLeast":
+				why = id + " into a scratch buffer in " + name(f)
+			default:
+				if callee := ir.Callee(call); callee != nil && c.P.InLib(callee) && callee != fn && c.codecWrapper(callee) == nil {
+					if c.isCodecFunc(callee, true) || c.isCodecFunc(callee, false) || c.readCone()[callee] && c.byteReaderCall(call) == nil && hasStreamParam(callee) {
+						if w := c.codecOpaque(callee, depth+1); w != "" {
+							why = w
+						}
+					}
+				}
+			}
+		})
+	}
+	return why
+}
+
+func hasStreamParam(fn *ssa.Function) bool {
+	for _, p := range fn.Params {
+		id := ir.NamedTypeID(p.Type())
+		if id == "io.Reader" || id == "io.Writer" || id == "bytes.Buffer" {
+			return true
+		}
+	}
+	return false
+}
+
+// leafKey strips the leading "pkg.Type" of a leaf id so that reader and writer
+// leaves that name the same wire field through different Go structs compare equal.
+func leafKey(id string) string {
+	rest := id
+	if k := strings.LastIndex(rest, "/"); k >= 0 {
+		rest = rest[k+1:]
+	}
+	parts := strings.Split(rest, ".")
+	if len(parts) >= 3 {
+		return strings.Join(parts[2:], ".")
+	}
+	return rest
 }
